@@ -667,7 +667,11 @@ impl Script {
                 {
                     let p = &mut self.m.ports[i];
                     if p.sent_finish {
-                        self.claim(format!("Data after SendFinish for port {port}"));
+                        // Certain only while the peer's receive direction is open: once the peer has
+                        // sent both finishes the endpoint may free the port and use its number again.
+                        if !p.sent_recv_finish {
+                            self.claim(format!("Data after SendFinish for port {port}"));
+                        }
                     } else {
                         p.credit_left -= 3;
                         self.marks.push((self.ctl.sent(1), i, (3) as u64));
@@ -1419,6 +1423,277 @@ async fn run(hostile_permille: u32) {
     }
 }
 
+
+// ---------------------------------------------------------------------------------------------
+// Hostile byte stream against Connect::io (length-prefixed framing, frame length cap)
+// ---------------------------------------------------------------------------------------------
+
+use tokio::io::{AsyncReadExt, AsyncWriteExt};
+
+/// Peer on a raw byte stream: writes length-prefixed frames in drawn pieces, parses what A sends.
+struct IoPeer<R, W> {
+    rd: R,
+    wr: W,
+    acc: Vec<u8>,
+    expect_payload: bool,
+}
+
+impl<R: tokio::io::AsyncRead + Unpin, W: tokio::io::AsyncWrite + Unpin> IoPeer<R, W> {
+    async fn write_bytes(&mut self, mut data: &[u8]) -> bool {
+        while !data.is_empty() {
+            let k = (kit::draw_range(1, 24) as usize).min(data.len());
+            match kit::within(Duration::from_secs(5), self.wr.write_all(&data[..k])).await {
+                Some(Ok(())) => {}
+                _ => return false,
+            }
+            data = &data[k..];
+        }
+        kit::within(Duration::from_secs(5), self.wr.flush()).await.is_some()
+    }
+
+    async fn write_frame(&mut self, frame: &[u8]) -> bool {
+        let mut v = (frame.len() as u32).to_le_bytes().to_vec();
+        v.extend_from_slice(frame);
+        self.write_bytes(&v).await
+    }
+
+    async fn send(&mut self, f: &Frame) -> bool {
+        self.write_frame(&proto::encode(f)).await
+    }
+
+    /// Next control frame from A (payload frames are skipped), within `t` of virtual time.
+    async fn next_frame(&mut self, t: Duration) -> Option<Frame> {
+        loop {
+            if self.acc.len() >= 4 {
+                let len = u32::from_le_bytes(self.acc[..4].try_into().unwrap()) as usize;
+                if self.acc.len() >= 4 + len {
+                    let frame: Vec<u8> = self.acc[4..4 + len].to_vec();
+                    self.acc.drain(..4 + len);
+                    if self.expect_payload {
+                        self.expect_payload = false;
+                        continue;
+                    }
+                    match proto::decode(&frame) {
+                        Ok(f) => {
+                            self.expect_payload = matches!(f, Frame::Data { .. });
+                            return Some(f);
+                        }
+                        Err(_) => continue,
+                    }
+                }
+            }
+            let mut buf = [0u8; 256];
+            match kit::within(t, self.rd.read(&mut buf)).await {
+                Some(Ok(n)) if n > 0 => self.acc.extend_from_slice(&buf[..n]),
+                _ => return None,
+            }
+        }
+    }
+
+    async fn wait_for(&mut self, t: Duration, mut pred: impl FnMut(&Frame) -> bool) -> Option<Frame> {
+        for _ in 0..200 {
+            let f = self.next_frame(t).await?;
+            if pred(&f) {
+                return Some(f);
+            }
+        }
+        None
+    }
+}
+
+async fn run_io() {
+    kit::draw_sched_policy();
+    let mut cfg_a = mux::draw_cfg(CfgProfile::Tiny);
+    cfg_a.connection_timeout = kit::pick(&[None, Some(Duration::from_secs(7))]);
+    cfg_a.receive_buffer = cfg_a.receive_buffer.max(16);
+    let max_frame = cfg_a.max_frame_length();
+    let (a_side, p_side) = tokio::io::duplex(kit::pick(&[1usize, 7, 64, 4096]));
+    let (ar, aw) = tokio::io::split(a_side);
+    let (pr, pw) = tokio::io::split(p_side);
+    let mut peer = IoPeer { rd: pr, wr: pw, acc: Vec::new(), expect_payload: false };
+
+    // 0 = before Hello, 1 = after Hello while the initial channel is being opened, 2 = established.
+    let stage = kit::draw(3);
+    let attack = kit::draw(6);
+    let attack_name = ["oversize length prefix", "frame cut short by EOF", "length prefix cut short by EOF", "zero-length frame", "garbage frame", "clean EOF between frames"][attack as usize];
+    kit::mix_plan(kit::hash_str(&format!("io{stage}{attack}")));
+    kit::set_sample(json!({"scenario": "hostile byte stream against Connect::io", "cfg_a": format!("{cfg_a:?}"), "stage": stage, "attack": attack_name, "max_frame_length": max_frame}));
+
+    let cfg2 = cfg_a.clone();
+    let mut a_task = kit::spawn(async move { remoc::Connect::io::<_, _, Vec<u8>, Vec<u8>, remoc::codec::Default>(cfg2, ar, aw).await });
+
+    let t = Duration::from_secs(3);
+    let mut ok = true;
+    if stage >= 1 {
+        ok = peer.send(&Frame::Reset).await
+            && peer.send(&Frame::Hello { version: 3, timeout_ms: 0, chunk_size: 64, recv_buf: 4096, connect_queue: 4 }).await
+            && peer.wait_for(t, |f| matches!(f, Frame::Hello { .. })).await.is_some();
+    }
+    if ok && stage >= 2 {
+        // Serve A's request for the initial channel and make our own.
+        ok = match peer.wait_for(t, |f| matches!(f, Frame::OpenPort { .. })).await {
+            Some(Frame::OpenPort { client_port, .. }) => {
+                peer.send(&Frame::PortOpened { client_port, server_port: 500 }).await
+                    && peer.send(&Frame::OpenPort { client_port: 600, wait: true, id: None }).await
+                    && peer.wait_for(t, |f| matches!(f, Frame::PortOpened { client_port: 600, .. })).await.is_some()
+            }
+            _ => false,
+        };
+    }
+    if !ok {
+        return kit::abort_run("io peer could not bring the endpoint to the chosen stage");
+    }
+    let established = if stage >= 2 {
+        kit::settle().await;
+        a_task.is_finished()
+    } else {
+        false
+    };
+    if stage >= 2 && !established {
+        return kit::abort_run("Connect::io did not return although the initial channel was opened");
+    }
+    let mut conn_tx_rx = None;
+    if established {
+        match (&mut a_task).await {
+            Ok(Ok((conn, tx, rx))) => {
+                let conn = kit::spawn(conn);
+                conn_tx_rx = Some((conn, tx, rx));
+            }
+            Ok(Err(e)) => return kit::abort_run(format!("Connect::io failed with an honest peer: {e}")),
+            Err(e) => return viol("panic", format!("Connect::io task failed: {e}")),
+        }
+    }
+
+    // ---- the attack ----
+    kit::fault_fired(match attack {
+        0 => "io_oversize_length_prefix",
+        1 => "io_frame_cut_short",
+        2 => "io_length_prefix_cut_short",
+        3 => "io_zero_length_frame",
+        4 => "io_garbage_frame",
+        _ => "io_clean_eof",
+    });
+    let must_end = match attack {
+        0 => {
+            let len = kit::pick(&[max_frame + 1, max_frame.saturating_mul(2), 1 << 20, u32::MAX]);
+            let mut v = len.to_le_bytes().to_vec();
+            v.extend_from_slice(&vec![0x55; kit::pick(&[0usize, 3, 40])]);
+            peer.write_bytes(&v).await;
+            true
+        }
+        1 => {
+            let mut v = 9u32.to_le_bytes().to_vec();
+            v.extend_from_slice(&[9, 1, 0, 0]);
+            peer.write_bytes(&v).await;
+            let _ = peer.wr.shutdown().await;
+            true
+        }
+        2 => {
+            peer.write_bytes(&[5, 0]).await;
+            let _ = peer.wr.shutdown().await;
+            true
+        }
+        3 => {
+            peer.write_frame(&[]).await;
+            // Before Hello undecodable frames are skipped; afterwards an empty frame is a protocol error.
+            stage >= 1
+        }
+        4 => {
+            let n = kit::pick(&[1usize, 2, 9, 17]);
+            let v: Vec<u8> = (0..n).map(|_| kit::draw(256) as u8).collect();
+            peer.write_frame(&v).await;
+            false
+        }
+        _ => {
+            let _ = peer.wr.shutdown().await;
+            true
+        }
+    };
+    // Keep reading what A writes so that it never blocks on a full pipe.
+    let drain = kit::spawn(async move {
+        let mut peer = peer;
+        while peer.next_frame(Duration::from_secs(3600)).await.is_some() {}
+    });
+    kit::settle().await;
+    let panics = kit::panics();
+    if !panics.is_empty() {
+        panic_viol(&panics, format!("panic on a hostile byte stream ({attack_name} at stage {stage}): {panics:?}"));
+        return;
+    }
+    kit::set_nontrivial();
+    match conn_tx_rx {
+        None => {
+            // Connect::io itself must fail (with a timeout configured: at the latest then).
+            if must_end || cfg_a.connection_timeout.is_some() {
+                if !a_task.is_finished() {
+                    tokio::time::sleep(Duration::from_secs(10)).await;
+                }
+                if must_end && !a_task.is_finished() {
+                    viol("bad-stream-not-refused", format!("{attack_name} during connection set-up (stage {stage}): Connect::io is still pending (connection_timeout {:?}, max frame length {max_frame})", cfg_a.connection_timeout));
+                    a_task.abort();
+                    drain.abort();
+                    return;
+                }
+                if a_task.is_finished() {
+                    match (&mut a_task).await {
+                        Ok(Err(_)) => kit::probe("io_setup_refused"),
+                        Ok(Ok(_)) => {
+                            viol("bad-stream-accepted", format!("{attack_name} during connection set-up (stage {stage}): Connect::io succeeded"));
+                            drain.abort();
+                            return;
+                        }
+                        Err(e) => return viol("panic", format!("Connect::io task failed: {e}")),
+                    }
+                }
+            }
+            a_task.abort();
+        }
+        Some((mut conn, mut tx, mut rx)) => {
+            if must_end {
+                if !conn.is_finished() {
+                    viol("bad-stream-not-refused", format!("{attack_name} on an established connection: the connection task keeps running (max frame length {max_frame})"));
+                    conn.abort();
+                    drain.abort();
+                    return;
+                }
+                match (&mut conn).await {
+                    Ok(Err(_)) => kit::probe("io_connection_failed_as_required"),
+                    Ok(Ok(())) => {
+                        viol("bad-stream-reported-as-orderly-end", format!("{attack_name}: the connection ended with Ok"));
+                        drain.abort();
+                        return;
+                    }
+                    Err(e) => return viol("panic", format!("connection task failed: {e}")),
+                }
+            }
+            if conn.is_finished() {
+                // Local users observe errors, nobody hangs.
+                let s = kit::within(Duration::from_secs(5), tx.send(vec![1, 2, 3])).await;
+                let r = kit::within(Duration::from_secs(5), rx.recv()).await;
+                match (s, r) {
+                    (Some(Err(_)), Some(Err(_))) => kit::probe("io_users_see_errors"),
+                    (s, r) => {
+                        viol(
+                            "local-user-hangs-after-termination",
+                            format!("after {attack_name} ended the connection: send -> {:?}, recv -> {:?}", s.map(|r| r.is_ok()), r.map(|r| r.map(|o| o.is_some()).map_err(|e| e.to_string()))),
+                        );
+                        drain.abort();
+                        return;
+                    }
+                }
+            } else {
+                kit::probe("io_survived");
+                conn.abort();
+            }
+        }
+    }
+    drain.abort();
+}
+
+fn sc_io() -> ScenarioFuture {
+    Box::pin(run_io())
+}
+
 fn sc_hostile() -> ScenarioFuture {
     Box::pin(run(500))
 }
@@ -1440,6 +1715,7 @@ pub fn checks() -> Vec<Check> {
             Scenario { name: "hostile", weight: 5, max_polls: 600_000, max_virtual_secs: 48 * 3600, run: sc_hostile },
             Scenario { name: "mostly-valid", weight: 3, max_polls: 600_000, max_virtual_secs: 48 * 3600, run: sc_mostly_valid },
             Scenario { name: "well-behaved-peer", weight: 1, max_polls: 600_000, max_virtual_secs: 48 * 3600, run: sc_valid_only },
+            Scenario { name: "hostile-byte-stream-io", weight: 1, max_polls: 600_000, max_virtual_secs: 48 * 3600, run: sc_io },
         ],
         quick: (600_000, 50),
         thorough: (25_000_000, 600),
@@ -1476,6 +1752,13 @@ non-trivial = at least one hostile frame was sent; distinct = distinct (plan has
             "goodbye",
             "credit_overflow_steps",
             "peer_valid_message",
+            "io_oversize_length_prefix",
+            "io_frame_cut_short",
+            "io_length_prefix_cut_short",
+            "io_zero_length_frame",
+            "io_setup_refused",
+            "io_connection_failed_as_required",
+            "io_users_see_errors",
         ],
         real_components: "remoc::chmux of ONE endpoint (ChMux::new handshake, run dispatcher, decoder, ports, credits, client, listener), tokio::sync, tokio current-thread scheduler (paused clock)",
         stub_components: STUB_NET,
